@@ -24,6 +24,37 @@ def run(pid, tier, seed, replay):
             dist.update(l["dist"])
         if l.get("k") == "violation":
             ctx.add_violation(l["sig"], l["what"], [l["case"]])
+    # server level: the message loop in front of the log (batching, nacks, acks) on partitions with
+    # concurrency control; the same driver and model as C04
+    import importlib
+    c04mod = importlib.import_module("props.c04")
+    slines = ctx.go_driver("server", ["server/srv_test.go", "server/partdrv_test.go", "server/c04_test.go"], "^TestVerifC04$",
+                           env={"VERIF_N": 3 if tier == "quick" else 40, "VERIF_CC_ONLY": 1}, timeout=6000)
+    srv_cases = [l for l in slines if l.get("k") == "ack"]
+    for l in slines:
+        if l.get("k") == "stat":
+            dist.update({"server/" + k: v for k, v in l["dist"].items()})
+        if l.get("k") == "violation" and l.get("prop") == "C16":
+            ctx.add_violation(l["sig"], l["what"], [l["case"]])
+    if srv_cases:
+        txt = "From LB Require Import Base.Prelude Repl.Acks.\nOpen Scope Z_scope.\n"
+        sentinel = "mkLCase [0%N; 1%N] 1%nat false [(LPublish [mkMsg 1%N PAll false (-1)], mkLObs 0 0 [(0%N, 0); (1%N, (-1))] [(1%N, 0, 0%nat)])]"
+        txt += "Definition CS : list lcase := [\n %s].\n" % ";\n ".join([c04mod.c_case(c) for c in srv_cases] + [sentinel])
+        txt += "Definition M := Eval vm_compute in lcases_mismatches CS 0.\nPrint M.\n"
+        out = ctx.coq_eval("cases_c16_srv", txt)
+        if out is not None:
+            import re
+            m = re.search(r"M\s*=\s*(.*?)\n\s*:", out, re.S)
+            pairs = [(int(a), int(b)) for a, b in re.findall(r"\(\s*(\d+)(?:%nat)?\s*,\s*(\d+)(?:%nat)?\s*\)", m.group(1))] if m else None
+            if pairs is None or (len(srv_cases), 0) not in pairs:
+                ctx.tie_problems.append({"what": "the server-level model evaluation could not be parsed or misses the sentinel", "detail": out[-300:]})
+            else:
+                for a, b in pairs:
+                    if a < len(srv_cases):
+                        c = srv_cases[a]
+                        ctx.tie_problems.append({"what": "correspondence Repl.Acks.lcases_mismatches (concurrency-control partitions): history %d differs from the model after step %d" % (c["id"], b),
+                                                 "first": [{"step": c["steps"][b], "case": {"id": c["id"], "steps": c["steps"][:b + 1]}}]})
+                        break
     mism, nshards = eval_log_cases(ctx, cases, "c16")
     if mism:
         ctx.tie_problems.append({"what": "correspondence Log.Check.lcases_mismatches: %d histories differ from the model" % len(mism),
@@ -34,7 +65,7 @@ def run(pid, tier, seed, replay):
         if any(r == 1 for r, _ in seq) and any(r == 0 and e != -1 for r, e in seq):
             canon.add(json.dumps([c["maxb"], seq]))
     return ctx.finish(
-        coverage={"input_distribution": dist, "histories": len(cases), "case_shards": nshards},
+        coverage={"input_distribution": dist, "histories": len(cases), "case_shards": nshards, "server_histories": len(srv_cases)},
         samples=cases[:1],
-        rule="sequences of single-message conditional appends on a commit log with ConcurrencyControl (expected offset waived / exact / stale / future / negative), with reopen in between and segment limits 70..300 bytes; non-trivial = at least one rejected and one accepted conditional append; distinct by (limit, sequence of (result, expected offset))",
+        rule="server level: publishes with waived/right/wrong expected offsets and all ack policies, alone and in groups, to partitions with concurrency control led by a real server (followers played by the driver), replayed on the ack model and checked for refused unconditional publishes. Log level: sequences of single-message conditional appends on a commit log with ConcurrencyControl (expected offset waived / exact / stale / future / negative), with reopen in between and segment limits 70..300 bytes; non-trivial = at least one rejected and one accepted conditional append; distinct by (limit, sequence of (result, expected offset))",
         evaluations=len(cases), distinct_nontrivial=len(canon), traces=len(cases))
